@@ -18,6 +18,7 @@ import (
 
 	"verifsim/choice"
 	"verifsim/gen"
+	"verifsim/sched"
 	"verifsim/simrt"
 )
 
@@ -78,6 +79,8 @@ type World struct {
 	StrayConfigs bool `json:"stray_configs,omitempty"`
 	// Persist: a fault that hits every operation of its kind during the whole run (the file is busy for good)
 	Persist *simrt.Fault `json:"persist,omitempty"`
+	// GoSeed: with MapSeed, the seed of the schedule of the command's own goroutines
+	GoSeed uint64 `json:"go_seed,omitempty"`
 	// ArgStyle (non-zero): the command line is spelled differently (see Exec)
 	ArgStyle int `json:"arg_style,omitempty"`
 	// OutLocked: another process holds an advisory lock (flock) on the existing -o file for the whole run
@@ -162,13 +165,16 @@ type Result struct {
 	Inputs        map[string]string          `json:"-"`               // sha of every input file after the run
 	InputsChanged []string                   `json:"inputs_changed,omitempty"`
 	DurMs         float64                    `json:"dur_ms"`
-	SimMs         int64                      `json:"sim_ms,omitempty"` // simulated time that passed during the run (clock reads, sleeps, operation latencies)
-	Killed        string                     `json:"killed,omitempty"` // the signal that killed the simulated process at the faulted operation
-	Race          string                     `json:"race,omitempty"`   // race detector report that appeared during this run (race builds only)
+	SimMs         int64                      `json:"sim_ms,omitempty"`   // simulated time that passed during the run (clock reads, sleeps, operation latencies)
+	GoTasks       int                        `json:"go_tasks,omitempty"` // goroutines the command started (scheduled as tasks)
+	Killed        string                     `json:"killed,omitempty"`   // the signal that killed the simulated process at the faulted operation
+	Race          string                     `json:"race,omitempty"`     // race detector report that appeared during this run (race builds only)
 	// concurrent executions only: the peers' results and the order in which the processes were given their turns
 	Peers []*Result `json:"peers,omitempty"`
 	Turns string    `json:"turns,omitempty"`
 }
+
+var raceLogBase string
 
 var (
 	isoCounter int
@@ -195,6 +201,7 @@ func initBase() {
 	}
 	baseDir = d
 	origEnv = os.Environ()
+	raceLogBase = os.Getenv("VERIFSIM_RACELOG")
 }
 
 func CleanupBase() {
@@ -725,7 +732,22 @@ func execPhase(t Target, w *World, top string, phase int) *Result {
 			}
 		}()
 		simrt.Begin(ctl)
-		t.Main()
+		// the command runs as the one initial task of the goroutine scheduler: goroutines it starts become
+		// further tasks, and which of them runs at every file operation, lock or channel operation is drawn
+		// from the run's schedule seed (a tool without goroutines is a single task: nothing to decide)
+		sr := sched.Run(sched.Config{Seed: w.MapSeed ^ w.GoSeed ^ 0x51ed, Policy: int((w.MapSeed ^ w.GoSeed) % uint64(sched.NPolicies)), StepCap: 4000000}, []func(){t.Main})
+		res.GoTasks = sr.Spawned
+		for _, ev := range sr.Events {
+			if ev.Kind == "panic-in-goroutine" {
+				panic("panic in a goroutine started by the command: " + ev.A)
+			}
+		}
+		if len(sr.Panics) > 0 {
+			panic(sr.Panics[0])
+		}
+		if sr.Outcome != "finished" && sr.Polling == 0 {
+			panic(simrt.Unbounded{What: "the command's goroutines do not come to an end: " + sr.Outcome})
+		}
 	}()
 	select {
 	case <-done:
@@ -796,7 +818,11 @@ func execPhase(t Target, w *World, top string, phase int) *Result {
 
 // raceLog returns the race detector's log file of this process and its current size.
 func raceLog() (string, int64) {
-	p := os.Getenv("VERIFSIM_RACELOG")
+	// (the worker's own environment, not the simulated one that is in force during a run)
+	p := raceLogBase
+	if p == "" {
+		p = os.Getenv("VERIFSIM_RACELOG")
+	}
 	if p == "" {
 		return "", 0
 	}
